@@ -831,6 +831,14 @@ def ref_variants(stream, cfg):
     return out
 
 
+def _err_says_size_equals_limit(err):
+    """labelling only: aiohttp's own text 'Message size N exceeds limit N' with both numbers equal
+    (e.g. a frame header declaring exactly max_msg_size whose payload has not arrived yet)"""
+    import re as _re
+    m = _re.search(r"size (\d+) exceeds limit (\d+)", str(err[2]) if err and len(err) > 2 else "")
+    return bool(m) and m.group(1) == m.group(2)
+
+
 def next_is_exactly_max(got, stream, cfg):
     """aiohttp stopped in front of a legal data message of exactly max_msg_size octets?"""
     full = R.decode(stream, deflate=cfg["compress"], max_msg_size=0, validate_text=cfg["decode_text"],
@@ -894,7 +902,7 @@ def run(scn, ch, log=False):
                 code = o["err"] and (o["err"][1] or o["err"][0])
                 if m_ > 1 and o["err"] is not None and o["err"][1] == 1009 and (any(
                         matches(o, r, n, scn["end"], cfg)[0] for r in ref_variants(stream, dict(cfg, max_msg_size=m_ - 1)))
-                        or next_is_exactly_max(o["msgs"], stream, cfg)):
+                        or next_is_exactly_max(o["msgs"], stream, cfg) or _err_says_size_equals_limit(o["err"])):
                     # explained exactly by reading max_msg_size as an exclusive bound
                     if EQ_MAX_LATITUDE:
                         return
